@@ -137,6 +137,8 @@ REGISTRY: T.List[T.Tuple[str, str, str, str]] = [
     ('environment.py', 'deprecated_properties', 'M', 'membership'),
     ('msetup.py', 'glob.glob(os.path.join(self.build_dir', 'M', '--wipe: backs up each matching file; operations commute'),
     ('msetup.py', 'os.listdir(self.build_dir)', 'M', '--wipe: deletes every entry; operations commute'),
+    ('msetup.py', "glob.glob(os.path.join(private_dir, '*.ini'))", 'M', '--wipe (since 9538e11): files kept in meson-private; membership only (`p not in keep`)'),
+    ('msetup.py', 'for p in os.listdir(l)', 'M', '--wipe (since 9538e11): deletes every entry of meson-private that is not kept; deletions commute'),
     ('msetup.py', 'if not os.listdir(build_dir)', 'M', 'emptiness test'),
     ('msetup.py', 'known_subprojects', 'M', 'membership'),
     ('msetup.py', 'mods = set(sys.modules.keys())', 'U', '--profile-self only; written sorted into meson-logs'),
